@@ -60,7 +60,7 @@ pub fn run(world: &World, ctx: &mut Ctx) -> Option<Value> {
     ctx.ev.extra.insert("corpus_grammars_compiled".into(), json!(world.grammars.len()));
     // (c) bounded termination over the whole corpus (the watchdog turns a hang into a violation)
     let pairs = super::pairs(world, &[]);
-    let total = ctx.tier.pick(60_000u64, 1_500_000u64);
+    let total = ctx.tier.pick(100_000u64, 2_000_000u64);
     let n = super::per_pair(total, pairs.len(), 20, 20_000);
     ctx.ev.extra.insert("termination_cases_per_pair".into(), json!(n));
     for (gi, rule) in pairs {
